@@ -3,53 +3,34 @@ package main
 import (
 	"fmt"
 	"os"
-	"path/filepath"
+	"os/exec"
+	"time"
 
 	"verif/harness/sut"
 )
 
 func main() {
 	ks := sut.NewKeySet("/verif/.cache/keys")
-	for _, comp := range []string{"", "gzip", "parallelgzip", "lz4", "zstandard", "brotli", "bzip2", "parallelbzip2"} {
-		for _, enc := range []string{"", "age"} {
-			dir, _ := os.MkdirTemp("", "dbg")
-			cfg := sut.Config{RecordSize: 20, Compression: comp, Encryption: enc}
-			inst, err := sut.Open(dir, "", cfg, ks, nil)
-			if err != nil {
-				panic(err)
-			}
-			fs := inst.FS
-			f, _ := fs.Create("/f")
-			buf := make([]byte, 1581)
-			for i := range buf {
-				buf[i] = byte(i*7 + 1)
-			}
-			f.Write(buf)
-			f.Close()
-			inst.Close()
-			sc, _ := sut.Scan(inst.Drive, cfg, ks, false)
-			last := sc.Recs[len(sc.Recs)-1]
-			for _, extra := range []int64{0, 1, 100} {
-				cut := (last.Off+last.HB)*512 + extra
-				data, _ := os.ReadFile(inst.Drive)
-				d2 := filepath.Join(dir, fmt.Sprintf("cut%d", extra))
-				os.MkdirAll(d2, 0o755)
-				os.WriteFile(filepath.Join(d2, "drive.tar"), data[:cut], 0o644)
-				rb, ierr, err := sut.Rebuilt(filepath.Join(d2, "drive.tar"), filepath.Join(d2, "rb"), cfg, ks)
-				if err != nil || rb == nil {
-					fmt.Println(comp, enc, extra, "rebuild failed", ierr, err)
-					continue
-				}
-				b, rerr := sut.ReadAll(rb.FS, "/f")
-				st, _ := rb.FS.Stat("/f")
-				sz := int64(-1)
-				if st != nil {
-					sz = st.Size()
-				}
-				fmt.Printf("%-14s %-4s cut=hdr+%-3d indexerr=%v stat=%d read=%d err=%v\n", comp, enc, extra, ierr, sz, len(b), rerr)
-				rb.Close()
-			}
-			os.RemoveAll(dir)
-		}
+	dir, _ := os.MkdirTemp("", "dbg")
+	defer os.RemoveAll(dir)
+	cfg := sut.Config{RecordSize: 3}
+	inst, err := sut.Open(dir, "", cfg, ks, nil)
+	if err != nil {
+		panic(err)
+	}
+	fmt.Println(inst.FS.Mkdir("/a", 0o755))
+	inst.Close()
+	os.Remove(inst.DB)
+	i2, err := sut.OpenPaths(inst.Drive, inst.DB, dir, cfg, ks, nil)
+	root, ierr := i2.FS.Initialize("/", os.ModePerm)
+	fmt.Printf("root=%q %v %v\n", root, ierr, err)
+	t := time.Unix(1600000000, 0)
+	fmt.Println("chtimes /:", i2.FS.Chtimes("/", t, t))
+	fmt.Println("chmod /a:", i2.FS.Chmod("/a", 0o700))
+	out, err := exec.Command("tar", "--ignore-zeros", "-tvf", inst.Drive).CombinedOutput()
+	fmt.Println(string(out), err)
+	sc, _ := sut.Scan(inst.Drive, cfg, ks, false)
+	for _, r := range sc.Recs {
+		fmt.Printf("scan off=%d %q tape=%q %s\n", r.Off, r.Name, r.TapeName, r.Action)
 	}
 }
